@@ -197,7 +197,11 @@ def gen_inject_script(rng):
             hosts.append(i)
     if not hosts:
         return None
-    h = rng.choice([i for i in hosts if ops[i].startswith('consume')] or hosts)
+    rot = [i for i in hosts if ops[i].startswith('rotate')]
+    if rot and rng.random() < 0.3:
+        h = rng.choice(rot)
+    else:
+        h = rng.choice([i for i in hosts if ops[i].startswith('consume')] or hosts)
     live_h, nsrc_h = state[h + 1] if h + 1 < len(state) else (live, nsrc)
     inj = []
     if live_h and rng.random() < 0.7:
@@ -208,6 +212,12 @@ def gen_inject_script(rng):
         if rng.random() < 0.4 and len(live_h) > 1:
             w2 = rng.choice(sorted(live_h - {w}))
             inj.append('log %d %d %d %s' % (w2, nsrc_h + 1, rng.randrange(1000), struct.pack('<II', w2, 100000 + rng.randrange(1000)).hex()))
+    if ops[h].startswith('rotate') and rng.random() < 0.7:
+        # a burst of first-time log statements of waiting threads: the metadata buffers grow (and move) right after the unlock
+        for j in range(rng.choice([1, 3, 20, 70])):
+            inj.append('src %d %s %s %s %d %s %s' % (rng.choice(G.SEVERITIES), b'burst'.hex(), (b'fn%d' % j).hex(), b'some/long/path/to/file.cpp'.hex(), j, b'm {}'.hex(), b'I'.hex()))
+        if rng.random() < 0.5:
+            inj.append('cs %d %d %d %d %s' % (rng.randrange(1000), 10 ** 9, rng.randrange(10 ** 18), 0, b'ZONE'.hex()))
     tail = ops[h + 1:]
     k = 0
     if not inj:
@@ -223,6 +233,55 @@ def gen_inject_script(rng):
     return head + ' | ' + ' | '.join(seq_ops), head + ' | ' + ' | '.join(inj_ops), perm
 
 
+def gen_write_inject_script(rng):
+    """a session script in which a `log` of a writer is executed WHILE consume is inside the write call that carries that
+    writer's queue data (harness: `%` prefix): the event is committed after the channel was polled and before it is released,
+    so the run must equal the sequential one `consume; log`.  Only logs that take no lock are injected: known source, a writer
+    whose queue can hold everything the script ever logs through it (no replacement).
+    Returns (sequential line, injected line, permutation) like gen_inject_script."""
+    base = gen_session_script(rng, rotations=True)
+    head, ops = base.split(' | ')[0], base.split(' | ')[1:]
+    caps, total, live, nsrc = {}, {}, set(), 0
+    state = []
+    since = set()         # writers that logged since the last consume
+    for i, o in enumerate(ops):
+        t = o.split(' ')
+        state.append((set(live), nsrc, set(since)))
+        if t[0] == 'cw':
+            live.add(int(t[1])); caps[int(t[1])] = int(t[2])
+        elif t[0] == 'dw':
+            live.discard(int(t[1]))
+        elif t[0] == 'src':
+            nsrc += 1
+        elif t[0] == 'log':
+            total[int(t[1])] = total.get(int(t[1]), 0) + 20 + len(t[4]) // 2
+            since.add(int(t[1]))
+        elif t[0] == 'consume':
+            since = set()
+    hosts = []
+    for i, o in enumerate(ops):
+        if o == 'consume':
+            lv, ns, sn = state[i]
+            # writers alive after the consume too (the injected log follows it in the sequential order)
+            ws = [w for w in lv if w in sn and ns > 0 and total.get(w, 0) + 3 * 40 < caps[w]]
+            if ws:
+                hosts.append((i, ws, ns))
+    if not hosts:
+        return None
+    h, ws, ns = rng.choice(hosts)
+    w = rng.choice(ws)
+    inj = []
+    for j in range(rng.choice([1, 1, 2, 3])):
+        inj.append('log %d %d %d %s' % (w, rng.randrange(1, ns + 1), rng.randrange(1000),
+                                        (struct.pack('<II', w, 200000 + rng.randrange(1000) * 4 + j) + bytes(rng.randrange(256) for _ in range(rng.choice([0, 4, 12])))).hex()))
+    tail = ops[h + 1:]
+    seq_ops = ops[:h] + [ops[h]] + inj + tail
+    inj_ops = ops[:h] + ['%' + x for x in inj] + [ops[h]] + tail
+    n = len(inj)
+    perm = list(range(h)) + [h + 1 + j for j in range(n)] + [h] + list(range(h + 1 + n, len(seq_ops)))
+    return head + ' | ' + ' | '.join(seq_ops), head + ' | ' + ' | '.join(inj_ops), perm
+
+
 def inject_stream(ctx, prop):
     """operations that wait for the session mutex run at the first unlock inside consume/rotate/registration: equal to the
     sequential run as long as the mutex is held for the whole body"""
@@ -230,13 +289,24 @@ def inject_stream(ctx, prop):
     rng = random.Random(ctx.seed * 1000003 + 303)
     n = cases_count(ctx, 600, 12000)
     cases = []
+    n_write = 0
     while len(cases) < n:
-        c = gen_inject_script(rng)
+        c = gen_write_inject_script(rng) if len(cases) % 3 == 2 else gen_inject_script(rng)
         if c:
             cases.append(c)
+            n_write += 1 if '%log' in c[1] else 0
     rc, impl_raw, err = run_lines(exe, [c[1] for c in cases])
     rc2, model, err2 = run_lines(driver_path(), [c[0] for c in cases])
     fails, mism = 0, 0
+    if rc != 0 and len(impl_raw) < len(cases):
+        # the real code died (sanitizer report, assertion, crash) on this schedule: that is a failing input
+        i = len(impl_raw)
+        fails += 1
+        ctx.violation('%s-inject-crash-%s' % (prop.lower(), hashlib.sha256(cases[i][1].encode()).hexdigest()[:10]),
+                      '%s: the real Session crashed (sanitizer report / assertion) with operations of other threads interleaved into consume / reconsumeMetadata' % prop,
+                      {'kind': 'schedule', 'input_line': cases[i][1], 'stderr_tail': err[-2500:],
+                       'how_to_read': 'ops marked @ run at the first mutex unlock inside the next unmarked op; ops marked % run while the next '
+                                      'unmarked op (a consume) is inside the write call carrying the queue data of that writer (harness/session_harness.cpp)'})
     for i, (seq_line, inj_line, perm) in enumerate(cases):
         if i >= len(impl_raw):
             break
@@ -253,16 +323,17 @@ def inject_stream(ctx, prop):
             fails += 1
             if fails <= 3:
                 ctx.violation('%s-inject-%s' % (prop.lower(), hashlib.sha256(inj_line.encode()).hexdigest()[:10]),
-                              '%s: with operations of other threads running where the operation gives up the session mutex: %s' % (prop, what),
+                              '%s: with operations of other threads interleaved (at a mutex unlock inside the operation, or while consume is inside a write call): %s' % (prop, what),
                               {'kind': 'schedule', 'input_line': inj_line, 'impl': impl_raw[i],
-                               'how_to_read': 'ops marked @ run at the first mutex unlock inside the next unmarked op (harness/session_harness.cpp)'})
+                               'how_to_read': 'ops marked @ run at the first mutex unlock inside the next unmarked op; ops marked % run while the next '
+                                              'unmarked op (a consume) is inside the write call carrying the queue data of that writer (harness/session_harness.cpp)'})
         elif i < len(model) and impl != model[i]:
             mism += 1
             if mism <= 3:
                 ctx.violation('corr-session_inject-%d' % i, 'correspondence session_inject broke: with waiting operations let in at the first unlock, the real code differs from the model in which the operation is one atomic step',
                               {'kind': 'correspondence', 'stream': 'session_inject', 'input_line': inj_line, 'sequential_line': seq_line, 'impl': impl, 'model': model[i],
                                'broken': 'correspondence stream session_inject / atomicity of the locked Session methods (Generated.lockedMethods_match)'}, found_input=False)
-    ctx.streams['session_inject'] = {'cases': len(cases), 'property_failures': fails, 'mismatches': mism, 'impl_rc': rc, 'model_rc': rc2}
+    ctx.streams['session_inject'] = {'cases': len(cases), 'cases_log_during_data_write': n_write, 'property_failures': fails, 'mismatches': mism, 'impl_rc': rc, 'model_rc': rc2}
     return fails
 
 
@@ -293,7 +364,8 @@ def session_check(ctx, module, theorems, prop, rotations=True, extra=None):
                          'traces_validated_against_impl': len(lines) - len(mism), 'rule': SESSION_RULE +
                          '; plus scripts in which the operations of threads waiting for the session mutex (first-time log statements: registration + '
                          'event, renames, writer creation/destruction) are run at the first mutex unlock inside consume / reconsumeMetadata / '
-                         'addEventSource / setClockSync (stream session_inject)'})
+                         'addEventSource / setClockSync, and scripts in which a writer logs while consume is inside the write call that '
+                         'carries that writer\'s data (after its poll, before its release) (stream session_inject)'})
     ctx.samples = [lines[0][:400]]
     return ctx.finish()
 
